@@ -245,6 +245,13 @@ func genC10(seed uint64, run int, tier string) Scenario {
 		// sent after the last credential, in order
 		sc.Ops = []OpSpec{{Kind: "idle", IdleUS: sc.ReadDelayUS*30 + int64(sc.Net.LatMax/time.Microsecond)*10}, {Kind: "readall"}, {Kind: "close"}}
 	}
+	if run >= 0 && r.IntN(5) == 0 {
+		// the process opens a second connection (its own device, its own login) between this
+		// one's Open and its first operation
+		o := genC10(seed^0xb0b0b0, -1-run, tier).(*Session)
+		o.Ops, o.Holds, o.OtherAfterOpen = nil, nil, nil
+		sc.OtherAfterOpen = o
+	}
 	if r.IntN(2) == 0 {
 		// sched-hold fault: the caller is descheduled between the end of the login and the moment
 		// Open puts the login bytes back, so that the read loop queues whatever arrives meanwhile
